@@ -25,6 +25,37 @@ from pyvc.interp import LoopClause
 from .common import ApiUnit, SendSeam, oname, get_cls, bare_client, varbind, exc_is, get_func, pdu_varbinds
 
 T_MULTIWALK = "puresnmp.api.raw:Client.multiwalk"
+
+
+def loop_roles(program):
+    """The walk loop's state is addressed by ROLE, not by the names the code happens to use:
+         unfinished : the name the `while` condition tests
+         yielded    : the set handed to deduped_varbinds (third argument / keyword `yielded`) inside the loop
+         fetcher    : the name awaited with the next OIDs inside the loop
+       (a rename of these locals is harmless and must not disturb the contract)."""
+    import ast
+    from pyvc.interp import nth_loop, loop_assigned_names
+    fi = program.find_function(T_MULTIWALK)
+    if fi is None:
+        raise Undecided("multiwalk not found")
+    loop = nth_loop(fi.node, 0)
+    if loop is None:
+        raise Undecided("multiwalk no longer has a `while` loop: the loop contract has nothing to attach to")
+    names = [n.id for n in ast.walk(loop.test) if isinstance(n, ast.Name)]
+    if len(names) != 1:
+        raise Undecided("multiwalk: the loop condition does not test exactly one local (%r)" % names)
+    roles = {"unfinished": names[0], "yielded": None, "fetcher": None}
+    for n in ast.walk(loop):
+        if isinstance(n, ast.Call) and isinstance(n.func, ast.Name) and n.func.id == "deduped_varbinds":
+            arg = n.args[2] if len(n.args) > 2 else next((k.value for k in n.keywords if k.arg == "yielded"), None)
+            if isinstance(arg, ast.Name):
+                roles["yielded"] = arg.id
+        if isinstance(n, ast.Await) and isinstance(n.value, ast.Call) and isinstance(n.value.func, ast.Name):
+            roles["fetcher"] = n.value.func.id
+    if roles["yielded"] is None:
+        raise Undecided("multiwalk: the set of delivered OIDs (argument of deduped_varbinds in the loop) was not found")
+    roles["temporaries"] = sorted(loop_assigned_names(loop) - {roles["unfinished"], roles["yielded"]})
+    return roles
 WALK_FUNCS = ("puresnmp.api.raw:Client.multiwalk", "puresnmp.api.raw:Client._walk_stalled",
               "puresnmp.api.raw:Client.multigetnext",
               "puresnmp.api.raw:deduped_varbinds", "puresnmp.util:group_varbinds",
@@ -92,6 +123,7 @@ class WalkUnit(ApiUnit):
         rt.theory.add_once("agent:V1", lambda: z3.ForAll([x], z3.And(*[rt.f_cls(self.agent.val(x)) != m for m in markers])))
         pdu_ids = self.xv.ids_of(get_cls(rt, interp, "puresnmp.pdu:PDU"))
         self.Yg = z3.K(OID, z3.BoolVal(False))
+        self.roles = loop_roles(interp.program)
         self.responses = []       # ghost: (request oids, cells, cut) per request
         self.in_loop = False
         interp.on_yield = self.on_yield
@@ -208,9 +240,18 @@ class WalkUnit(ApiUnit):
         self.Yg = z3.Store(self.Yg, o, z3.BoolVal(True))
 
     # ------------------------------------------------------------------ loop clause
+    def _havoc_locals(self, frame, un):
+        from pyvc.interp import Poison
+        frame.locals[self.roles["unfinished"]] = un
+        if self.roles["fetcher"]:
+            frame.locals[self.roles["fetcher"]] = self.real_fetcher      # as resolved by the first statements of multiwalk
+        for name in self.roles["temporaries"]:
+            if name != self.roles["fetcher"]:
+                frame.locals[name] = Poison(name)      # assigned by the body; reading it first = loop-carried state
+
     def _state(self, interp, frame):
-        un = frame.locals.get("unfinished_oids")
-        ys = frame.locals.get("yielded")
+        un = frame.locals.get(self.roles["unfinished"])
+        ys = frame.locals.get(self.roles["yielded"])
         if not isinstance(un, list):
             raise Undecided("multiwalk: unfinished_oids is not a list at the loop head")
         entries = []
@@ -274,17 +315,14 @@ class WalkUnit(ApiUnit):
         self.responses = []
         Y0 = ctx.fresh(z3.ArraySort(OID, Bool), "delivered")
         self.Yg = Y0
-        frame.locals["yielded"] = ASet(Y0)
+        frame.locals[self.roles["yielded"]] = ASet(Y0)
         un = []
         for i, r in enumerate(self.sorted_roots):
             if i in self.active:
                 last = ctx.fresh_oid("last_r%d" % i)
                 lval = self.xv.fresh(ctx, "last_val_r%d" % i)
                 un.append((r, Obj(walkrow, {"value": varbind(rt, interp, last, lval), "unfinished": True})))
-        frame.locals["unfinished_oids"] = un
-        frame.locals["fetcher"] = self.real_fetcher      # as resolved by the first statements of multiwalk
-        for name in ("varbinds", "grouped_oids", "next_fetches", "continued_from", "stalled"):
-            frame.locals.pop(name, None)
+        self._havoc_locals(frame, un)
 
     def variant(self, interp, frame):
         entries, _ = self._state(interp, frame)
@@ -431,6 +469,7 @@ class FaultyWalkUnit(WalkUnit):
         self.C, self.W, self.Rv = empty, empty, empty
         self.requests = 0
         self.responses = []
+        self.roles = loop_roles(interp.program)
         interp.on_yield = None
         interp.loop_clauses[(T_MULTIWALK, 0)] = LoopClause(self.havoc, self.invariant, self.variant,
                                                            mode="establish" if self.phase == "prologue" else "step")
@@ -495,17 +534,14 @@ class FaultyWalkUnit(WalkUnit):
         walkrow = get_cls(rt, interp, "puresnmp.util:WalkRow")
         arr = z3.ArraySort(OID, Bool)
         self.C, self.W, self.Rv = ctx.fresh(arr, "continued_from"), ctx.fresh(arr, "witnesses"), ctx.fresh(arr, "revealed")
-        frame.locals["yielded"] = ASet(ctx.fresh(arr, "yielded"))
+        frame.locals[self.roles["yielded"]] = ASet(ctx.fresh(arr, "yielded"))
         un = []
         for i, r in enumerate(self.sorted_roots):
             if i in self.active:
                 last = ctx.fresh_oid("last_r%d" % i)
                 lval = self.xv.fresh(ctx, "last_val_r%d" % i)
                 un.append((r, Obj(walkrow, {"value": varbind(rt, interp, last, lval), "unfinished": True})))
-        frame.locals["unfinished_oids"] = un
-        frame.locals["fetcher"] = self.real_fetcher
-        for name in ("varbinds", "grouped_oids", "next_fetches", "continued_from", "stalled"):
-            frame.locals.pop(name, None)
+        self._havoc_locals(frame, un)
         self._witness_pending = un[0][1].fields["value"][0] if un else None
 
     def variant(self, interp, frame):
